@@ -12,6 +12,7 @@ Init == ps = Abs("none", 0) /\ last = [op |-> [name |-> "init"], out |-> "ok"]
 Ops(s) ==
    {[name |-> "set_values", in |-> c] : c \in Classes} \cup
    {[name |-> nm, in |-> c, strict |-> b] : nm \in {"append", "extend"}, c \in Classes, b \in BOOLEAN} \cup
+   {[name |-> "extend", in |-> c, strict |-> b] : c \in PropInputs, b \in BOOLEAN} \cup
    {[name |-> "insert", i |-> i, in |-> c, strict |-> b] : i \in {0, 1, 5}, c \in Scalars \cup Empties, b \in BOOLEAN} \cup
    {[name |-> "setitem", i |-> i, in |-> c] : i \in {0, 1, 5}, c \in Scalars \cup Empties} \cup
    {[name |-> "remove", in |-> c] : c \in {"int", "str", "float_f"}} \cup
